@@ -43,6 +43,7 @@ OPERANDS = {
     'i0': lambda: 0, 'bF': lambda: False, 'list_zeros': lambda: [0, 0, 0],
     'list_n': lambda: [1, 2, 3], 'tuple_n': lambda: (1.5, 2.5, 3.5), 'range_n': lambda: range(N),
     'liststr': lambda: ['a', 'b', 'c'], 'listbool': lambda: [True, False, True],
+    'list_none_item': lambda: [1, None, 3], 'list_bad_item': lambda: [1.5, 'oops', 2.5], 'list_nan_item': lambda: [1.0, float('nan'), 2.0],
     'range_1': lambda: range(7, 8), 'range_n+1': lambda: range(N + 1), 'tuple_1': lambda: (7,),
     'list_n+1': lambda: [1, 2, 3, 4], 'list_n-1': lambda: [1, 2], 'list_1': lambda: [7], 'list_0': lambda: [],
     'nest_nx2': lambda: [[1, 2], [3, 4], [5, 6]], 'nest_nx1': lambda: [[1], [2], [3]], 'nest_1xn': lambda: [[1, 2, 3]],
@@ -80,6 +81,10 @@ def build(kind):
         return c
     if kind == 'model':
         return _MODEL(list(LABELS), X=[1.0, 2.0, 3.0])
+    if kind == 'empty-model':
+        return _EMPTY(list(LABELS))  # a model class without variables of its own (before its first add_variable)
+    if kind == 'bare-linker':
+        return BaseLinker({'m': _MODEL(list(LABELS))})  # submodels, but no core variables
     if kind == 'linker':
         class Lk(BaseLinker):
             ENDOGENOUS = ['A']
@@ -91,11 +96,14 @@ def build(kind):
 
 
 _MODEL = fsic.build_model(fsic.parse_model('A = 0.5 * A[-1] + X\nK = A + 1'))
+_EMPTY = fsic.build_model(fsic.parse_model(''))
 
 VARS = {
     'container': ['A', 'K', 'S', 'Q'],
     'model': ['A', 'K', 'status', 'iterations'],
     'linker': ['A', 'K', 'status', 'iterations'],
+    'empty-model': ['Znew', 'A', 'status', 'iterations'],
+    'bare-linker': ['Znew', 'A', 'status', 'iterations'],
 }
 
 
@@ -186,7 +194,10 @@ def invariant(obj, created):
             probs.append((name, 'dtype', a.dtype.str, created[name]))
     for name in obj.index:
         a = vars(obj).get('_' + name)
-        if isinstance(a, np.ndarray) and not hasattr(type(obj), name):
+        # a variable created with the name of something that already resolves on the object (a class attribute / method, or an
+        # ad hoc attribute registered earlier) is read back by key only: attribute access finds the older attribute first, by
+        # construction. The reverse order is refused by the library (add_attribute with a variable's name: step oracle).
+        if isinstance(a, np.ndarray) and not hasattr(type(obj), name) and name not in vars(obj).get('_attributes', ()):
             try:
                 if getattr(obj, name) is not a or obj[name] is not a:
                     probs.append((name, 'shadowed', 'attribute/key read does not return the series'))
@@ -315,6 +326,13 @@ def step_oracle(obj, op, before_series, before_obs, exc, created, nonstrict_twin
                 out.append(('accepted-misfit:setslice', 'raises', 'accepted', 'slice assignment of a misfitting operand accepted'))
         else:
             out.append(('absent-label-accepted:slice', 'KeyError', 'accepted', 'slice bound outside the span accepted'))
+    if kind in ('values', 'values_array') and hasattr(obj, 'names'):
+        # `values` of a model / linker is the stack of its `names`: replacing it never touches the series outside that stack
+        for other in index_before:
+            if other not in obj.names and other in after and other in before_series and before_series[other].tobytes() != after[other].tobytes():
+                out.append(('values:wrote-outside-the-stack', before_series[other].tolist(), after[other].tolist(),
+                            'replacing `values` changed %r, which is not part of `values`' % other))
+                break
     if kind == 'add_attribute' and name in index_before:
         if exc is None or not unchanged():
             out.append(('duplicate-accepted:add_attribute', 'raises, nothing changed', type(exc).__name__ if exc else 'accepted',
@@ -352,7 +370,7 @@ def before_attr_names(obs):
 
 # --------------------------------------------------------------------------- BFS
 
-_KINDS = ['container', 'model', 'linker']
+_KINDS = ['container', 'model', 'linker', 'empty-model', 'bare-linker']
 _OPS = {k: None for k in _KINDS}
 _PRIOR = Acc()
 _FRONT = None
